@@ -7,7 +7,7 @@
 //!   the background worker at which an installed hook function is called,
 //! * a facade ([`BoxcarVec`]) over the crate private lock-free item vector,
 //! * a facade ([`par_quicksort`]) over the crate private parallel sort.
-use std::sync::atomic::{AtomicBool, AtomicUsize, Ordering};
+use std::sync::atomic::{AtomicBool, AtomicPtr, Ordering};
 
 use crate::{boxcar, Item, Utf32String};
 
@@ -91,21 +91,24 @@ pub enum Point {
     SortJoin,
 }
 
-static HOOK: AtomicUsize = AtomicUsize::new(0);
+static HOOK: AtomicPtr<()> = AtomicPtr::new(std::ptr::null_mut());
 
 /// Installs (or removes) the hook function that is called at every [`Point`].
 ///
 /// While no hook is installed a yield point is a single relaxed load.
 pub fn set_hook(hook: Option<fn(Point)>) {
-    HOOK.store(hook.map_or(0, |hook| hook as usize), Ordering::SeqCst);
+    HOOK.store(
+        hook.map_or(std::ptr::null_mut(), |hook| hook as *mut ()),
+        Ordering::SeqCst,
+    );
 }
 
 #[inline]
 pub(crate) fn hit(point: Point) {
     let hook = HOOK.load(Ordering::Relaxed);
-    if hook != 0 {
+    if !hook.is_null() {
         // safety: only ever written by `set_hook` from a valid function pointer
-        let hook: fn(Point) = unsafe { std::mem::transmute::<usize, fn(Point)>(hook) };
+        let hook: fn(Point) = unsafe { std::mem::transmute::<*mut (), fn(Point)>(hook) };
         hook(point)
     }
 }
